@@ -2479,7 +2479,7 @@ Qed.
 (* ======================================================================== *)
 (* Part N : the covered alphabet, final form: everything except restore_ind and the three
    single-figure totals (total_flops / total_write / max_size when they have to recompute) *)
-Definition prim_pre (p : prim) (s : tstate) : Prop :=
+Definition prim_preN (p : prim) (s : tstate) : Prop :=
   match p with
   | PGet GCanDot nd | PGet GInds nd | PGet GTdAxes nd | PGet GTdPerm nd | PGet GEq nd => good_node nd
   | PResetInds | PResetRecipes | PSortInds _ _ _ _ => True
@@ -2489,10 +2489,10 @@ Definition prim_pre (p : prim) (s : tstate) : Prop :=
   | PMaxSize => trk_size s = true
   | _ => prim_pre1 p s
   end.
-Theorem step_preserves_InvC p s : InvC s -> prim_pre p s -> InvC (step n p s).
+Theorem step_preserves_InvCN p s : InvC s -> prim_preN p s -> InvC (step n p s).
 Proof.
   intros HI Hp. destruct p as [nd|nd|x y lg c z|g nd|f| | | | | |pr a b c|ind pj|ind| |k];
-    try (apply step_preserves_InvC1; assumption); cbn [step]; cbn [prim_pre] in Hp.
+    try (apply step_preserves_InvC1; assumption); cbn [step]; cbn [prim_preN] in Hp.
   - destruct g; cbn [do_get].
     + exact (step_preserves_InvC1 (PGet GLegs nd) s HI Hp).
     + exact (step_preserves_InvC1 (PGet GInvolved nd) s HI Hp).
@@ -2511,10 +2511,6 @@ Proof.
   - apply sort_inds_inv, HI.
   - apply remove_ind_inv; assumption.
 Qed.
-Theorem run_preserves_InvC tr : forall s, InvC s -> pre_trace n prim_pre tr s -> InvC (run n tr s).
-Proof. intros s HI Hp. apply (run_good n InvC prim_pre step_preserves_InvC tr s HI Hp). Qed.
-Theorem trace_from_fresh_InvC tr : pre_trace n prim_pre tr (init_state n) -> InvC (run n tr (init_state n)).
-Proof. apply run_preserves_InvC, init_state_InvC. Qed.
 
 (* ======================================================================== *)
 (* Part O : the figures are a function of (children, SET of removed indices)  *)
@@ -3269,6 +3265,51 @@ Qed.
 
 End VV.
 
+
+(* canonical representatives of the specification (witnesses of legs_ok / inv_ok) *)
+Lemma lget_mapf (f : ix -> nat) j L : lget j (map (fun k => (k, f k)) L) = if memb j L then Some (f j) else None.
+Proof.
+  induction L as [|a L IH]; cbn; [reflexivity|]. rewrite (Nat.eqb_sym j a).
+  destruct (Nat.eqb_spec a j) as [->|]; cbn; [reflexivity|exact IH].
+Qed.
+Lemma wfl_mapf (f : ix -> nat) L : NoDup L -> (forall k, In k L -> 0 < f k) -> wfl (map (fun k => (k, f k)) L).
+Proof.
+  intros ND Hp. split.
+  - unfold lkeys. rewrite map_map. cbn. rewrite map_id. exact ND.
+  - intros kv Hkv. apply in_map_iff in Hkv. destruct Hkv as (k & <- & Hk). cbn. apply Hp, Hk.
+Qed.
+Lemma spec_pos_univ sl0 nd j : 0 < spec_count n sl0 nd j -> In j (universe n).
+Proof.
+  unfold spec_count. intros H. apply (cnt_pos_in_universe n sl0 nd j). destruct (cnt n sl0 nd j <? appear n j); lia.
+Qed.
+Definition canon_legs (sl0 : list slinfo) (nd : node) : legs :=
+  if Nat.eqb (length nd) N then root_legs n sl0
+  else map (fun j => (j, spec_count n sl0 nd j)) (filter (fun j => Nat.ltb 0 (spec_count n sl0 nd j)) (universe n)).
+Lemma canon_legs_ok sl0 nd : legs_ok n sl0 nd (canon_legs sl0 nd).
+Proof.
+  unfold canon_legs. destruct (Nat.eqb_spec (length nd) N) as [E|E]; [apply legs_ok_root, E|].
+  apply legs_ok_nonroot; [exact E|]. split.
+  - apply wfl_mapf; [apply NoDup_filter, NoDup_nodup|]. intros k Hk. apply filter_In in Hk. destruct Hk as [_ Hk]. lia.
+  - intros j. unfold lget0. rewrite lget_mapf, memb_filter.
+    destruct (memb j (universe n)) eqn:Em; cbn [andb].
+    + destruct (Nat.ltb_spec 0 (spec_count n sl0 nd j)); [reflexivity|lia].
+    + destruct (spec_count n sl0 nd j) eqn:Es; [reflexivity|]. apply memb_false in Em. exfalso. apply Em, (spec_pos_univ sl0 nd j). lia.
+Qed.
+Definition canon_inv (sl0 : list slinfo) (l r : node) : legs :=
+  map (fun j => (j, spec_count n sl0 l j + spec_count n sl0 r j))
+      (filter (fun j => Nat.ltb 0 (spec_count n sl0 l j + spec_count n sl0 r j)) (universe n)).
+Lemma canon_inv_ok sl0 l r : inv_ok n sl0 l r (canon_inv sl0 l r).
+Proof.
+  unfold canon_inv. split.
+  - apply wfl_mapf; [apply NoDup_filter, NoDup_nodup|]. intros k Hk. apply filter_In in Hk. destruct Hk as [_ Hk]. lia.
+  - intros j. unfold lget0. rewrite lget_mapf, memb_filter.
+    destruct (memb j (universe n)) eqn:Em; cbn [andb].
+    + destruct (Nat.ltb_spec 0 (spec_count n sl0 l j + spec_count n sl0 r j)); [reflexivity|lia].
+    + apply memb_false in Em. destruct (spec_count n sl0 l j) eqn:E1; [destruct (spec_count n sl0 r j) eqn:E2; [reflexivity|]|].
+      * exfalso. apply Em, (spec_pos_univ sl0 r j). lia.
+      * exfalso. apply Em, (spec_pos_univ sl0 l j). lia.
+Qed.
+
 (* ======================================================================== *)
 (* Part Q : restore_ind                                                      *)
 Section RestoreInd.
@@ -3306,13 +3347,13 @@ Proof.
 Qed.
 
 (* a node none of whose children carries the restored index keeps valid caches *)
-Lemma unaffected_node ch p i l r ll lr lg inv :
+Lemma unaffected_node ch p i l r ll lr :
   children_ok ch -> nget p ch = Some (l, r) -> good_node p ->
-  node_inv ch sl p i -> i_legs i = Some lg -> i_involved i = Some inv ->
+  node_inv ch sl p i ->
   slegs_ok n sl' l ll -> slegs_ok n sl' r lr -> lmem ind ll = false -> lmem ind lr = false ->
   node_inv ch sl' p i.
 Proof.
-  intros Hc Ech Gp (A&B&C&D) Hlg Hinv [Wl Gl] [Wr Gr] El Er.
+  intros Hc Ech Gp (A&B&C&D) [Wl Gl] [Wr Gr] El Er.
   pose proof (proj2 Hc) as Hc'. destruct (Hc' p l r Ech) as (Gl' & Gr' & HR & HP).
   assert (Zl : spec_count n sl' l ind = 0).
   { rewrite <- Gl. apply lget0_notin, lmem_false_notin, El. }
@@ -3322,17 +3363,12 @@ Proof.
   { rewrite (spec_count_perm n sl' _ _ ind HP). apply spec_union_zero; assumption. }
   assert (Hspec : forall S, spec_count n sl' S ind = 0 -> forall j, spec_count n sl S j = spec_count n sl' S j).
   { intros S Z j. rewrite spec_old. destruct (Nat.eqb_spec j ind) as [->|]; [symmetry; exact Z|reflexivity]. }
-  (* involved *)
-  assert (Hinv_ok : inv_ok n sl' l r inv).
-  { destruct (B inv Hinv) as [[E1 _]|(l2 & r2 & E2 & [W G])].
-    - exfalso. apply (leaf_not_parent ch p l r Hc Ech E1).
-    - rewrite Ech in E2. injection E2 as <- <-. split; [exact W|]. intros j. rewrite G, (Hspec l Zl), (Hspec r Zr). reflexivity. }
-  (* legs *)
-  assert (Hlegs_ok : legs_ok n sl' p lg).
-  { pose proof (A lg Hlg) as Hl. unfold legs_ok in *. destruct (Nat.eqb_spec (length p) N) as [EN|EN].
+  assert (Ti : forall inv, inv_ok n sl l r inv -> inv_ok n sl' l r inv).
+  { intros inv [W G]. split; [exact W|]. intros j. rewrite G, (Hspec l Zl), (Hspec r Zr). reflexivity. }
+  assert (Tl : forall lg, legs_ok n sl p lg -> legs_ok n sl' p lg).
+  { intros lg Hl. unfold legs_ok in *. destruct (Nat.eqb_spec (length p) N) as [EN|EN].
     - destruct Hl as [ND G]. split; [exact ND|]. intros j. rewrite G, (root_legs_more sl' sl ind Hrem).
       destruct (Nat.eqb_spec j ind) as [->|]; [|reflexivity].
-      (* the restored index cannot be an output index here *)
       destruct (lget ind (root_legs n sl')) eqn:Eo; [|reflexivity]. exfalso.
       assert (Hin : In ind (lkeys (root_legs n sl'))) by (apply lget_in_keys; congruence).
       unfold root_legs, lkeys in Hin. rewrite map_map in Hin. cbn in Hin. rewrite map_id in Hin. apply filter_In in Hin.
@@ -3344,16 +3380,16 @@ Proof.
         apply (Permutation_in _ (Permutation_sym HPp)), Hk. }
       pose proof (root_ind_involved l r HPall (proj1 Hin)). lia.
     - destruct Hl as [W G]. split; [exact W|]. intros j. rewrite G. apply (Hspec p Zp). }
+  pose proof (canon_legs_ok sl p) as WL. pose proof (canon_inv_ok sl l r) as WI.
   unfold node_inv. repeat split.
-  - intros lg' E. rewrite Hlg in E. injection E as <-. exact Hlegs_ok.
-  - intros inv' E. rewrite Hinv in E. injection E as <-. right. exists l, r. split; assumption.
-  - intros z Hz lg' Hlg'. rewrite (C z Hz lg (A lg Hlg)). apply (legs_ok_size_unique n sl' _ p); assumption.
+  - intros lg E. apply Tl, A, E.
+  - intros inv E. right. exists l, r. split; [exact Ech|]. apply Ti.
+    destruct (B inv E) as [[E1 _]|(l2 & r2 & E2 & Hok)]; [exfalso; apply (leaf_not_parent ch p l r Hc Ech E1)|].
+    rewrite Ech in E2. injection E2 as <- <-. exact Hok.
+  - intros z Hz lg' Hlg'. rewrite (C z Hz _ WL). apply (legs_ok_size_unique n sl' _ p); [apply Tl, WL|exact Hlg'].
   - intros z Hz. right. exists l, r. split; [exact Ech|]. intros inv' Hinv'.
-    destruct (D z Hz) as [[E1 _]|(l2 & r2 & E2 & F)].
-    + exfalso. apply (leaf_not_parent ch p l r Hc Ech E1).
-    + rewrite Ech in E2. injection E2 as <- <-.
-      destruct (B inv Hinv) as [[E1 _]|(l3 & r3 & E3 & Hok)]; [exfalso; apply (leaf_not_parent ch p l r Hc Ech E1)|].
-      rewrite Ech in E3. injection E3 as <- <-. rewrite (F inv Hok). apply (inv_ok_size_unique n sl' _ l r); assumption.
+    destruct (D z Hz) as [[E1 _]|(l2 & r2 & E2 & F)]; [exfalso; apply (leaf_not_parent ch p l r Hc Ech E1)|].
+    rewrite Ech in E2. injection E2 as <- <-. rewrite (F _ WI). apply (inv_ok_size_unique n sl' _ l r); [apply Ti, WI|exact Hinv'].
 Qed.
 
 (* a leaf whose term does not carry the index *)
@@ -3473,7 +3509,7 @@ Definition RInv (K0 : list node) (P : list node) (s : tstate) : Prop :=
   (forall q, In q K0 -> nget q (info s) <> None) /\
   (forall p l r, nget p (children s) = Some (l, r) -> ~ In p P -> nunion l r = p) /\
   (forall nd i, nget nd (info s) = Some i -> length nd <> 1 -> ~ In nd P ->
-     node_inv (children s) sl nd i /\ full2 i /\ In nd K0).
+     node_inv (children s) sl nd i /\ In nd K0).
 
 Definition loop_body (s : tstate) (plr : node * (node * node)) : tstate :=
   let '(p, (l, r)) := plr in
@@ -3594,16 +3630,15 @@ Proof.
     assert (HnP' : ~ In nd P) by (intros H; apply Hnd; right; exact H).
     assert (HnV : ~ Vof (p :: P) nd) by (intros [H|H]; contradiction).
     rewrite (FrF nd HnV), (FrR nd Hn) in Hi.
-    destruct (Hunb nd i Hi Hl HnP') as (A & B & C). split; [|split; assumption].
+    destruct (Hunb nd i Hi Hl HnP') as (A & C). split; [|assumption].
     apply (node_inv_children_ext (children sb)); [|exact A]. rewrite Hch_other by exact Hn. rewrite Cb. reflexivity.
   - (* unaffected: the old caches are right for the new sliced set *)
     destruct (Hnohit eq_refl) as (lr & L2 & El & Er).
     split; [|intros q _; rewrite Cb; reflexivity].
     destruct (nget p (info sb)) as [i|] eqn:Ei; [|congruence].
-    destruct (Hunb p i Ei E1p HnP) as (Hold & [Fl Fi] & _).
-    destruct (i_legs i) as [lg|] eqn:Elg; [|congruence]. destruct (i_involved i) as [inv|] eqn:Einv; [|congruence].
+    destruct (Hunb p i Ei E1p HnP) as (Hold & _).
     assert (Hnew : node_inv (children sb) sl' p i).
-    { apply (unaffected_node sl sl' ind Hrem Hfresh Hinc (children sb) p i l r ll lr lg inv); try assumption. apply HSb. }
+    { apply (unaffected_node sl sl' ind Hrem Hfresh Hinc (children sb) p i l r ll lr); try assumption. apply HSb. }
     unfold RInv. split.
     { split; [|exact HTb]. apply (InvSV_extend (Vof P)); [exact HSb| |apply Vof_dec].
       intros nd j Hj [Hl|[<-|Hin]] HnV; [exfalso; apply HnV; left; exact Hl| |exfalso; apply HnV; right; exact Hin].
@@ -3672,7 +3707,7 @@ Definition rs_pre (ind : ix) (s : tstate) : Prop :=
   (exists nodes, traverse n s = Some nodes /\ Permutation (map fst nodes) (nkeys (children s)) /\ children_first [] nodes) /\
   (forall p l r, nget p (children s) = Some (l, r) -> nunion l r = p) /\
   (forall q, In q (nkeys (children s)) -> nget q (info s) <> None) /\
-  (forall nd i, nget nd (info s) = Some i -> length nd <> 1 -> In nd (nkeys (children s)) /\ full2 i).
+  (forall nd i, nget nd (info s) = Some i -> length nd <> 1 -> In nd (nkeys (children s))).
 
 Theorem restore_ind_inv ind s : InvC s -> rs_pre ind s -> InvC (restore_ind n ind s).
 Proof.
@@ -3736,8 +3771,8 @@ Proof.
       split; [reflexivity|]. split; [exact Tf|]. split; [exact Tw|]. split; [exact Ts|]. split; [tauto|]. split.
       { intros q Hq. rewrite (Hinternal q (Hkeylen q Hq)). apply HKi, Hq. }
       split; [intros q l r Hq _; apply (HU q l r Hq)|].
-      intros nd i Hi Hl _. rewrite (Hinternal nd Hl) in Hi. destruct (C3 nd i Hi) as [_ Hn]. destruct (Hfull nd i Hi Hl) as [Hk Hf].
-      split; [exact Hn|]. split; [exact Hf|exact Hk]. }
+      intros nd i Hi Hl _. rewrite (Hinternal nd Hl) in Hi. destruct (C3 nd i Hi) as [_ Hn].
+      split; [exact Hn|exact (Hfull nd i Hi Hl)]. }
   (* the loop *)
   assert (NDn : NoDup (map fst nodes)) by (apply (Permutation_NoDup (Permutation_sym HPn)), C1).
   pose proof (RInv_fold sl sl' ind Hrem Hfresh Hinc K0 nodes [] s4 HR0 NDn) as HRf.
@@ -3751,8 +3786,26 @@ Proof.
     intros nd i Hi. destruct (D3 nd i Hi) as [G Hv]. split; [exact G|]. apply Hv.
     destruct (Nat.eq_dec (length nd) 1) as [E1|E1]; [left; exact E1|right].
     rewrite app_nil_r. destruct (in_dec node_eq_dec nd (rev (map fst nodes))) as [H|H]; [exact H|exfalso].
-    destruct (Hunf nd i Hi E1) as (_ & _ & Hk); [rewrite app_nil_r; exact H|].
+    destruct (Hunf nd i Hi E1) as (_ & Hk); [rewrite app_nil_r; exact H|].
     apply H, in_rev. rewrite rev_involutive. apply (Permutation_in _ (Permutation_sym HPn)), Hk.
 Qed.
+
+(* ======================================================================== *)
+(* Part R : the covered alphabet, final form: every primitive except the three single-figure
+   totals when they have to recompute *)
+Definition prim_pre (p : prim) (s : tstate) : Prop :=
+  match p with
+  | PRestoreInd ind => rs_pre ind s
+  | _ => prim_preN p s
+  end.
+Theorem step_preserves_InvC p s : InvC s -> prim_pre p s -> InvC (step n p s).
+Proof.
+  intros HI Hp. destruct p; try (apply step_preserves_InvCN; assumption).
+  cbn [step]. apply restore_ind_inv; assumption.
+Qed.
+Theorem run_preserves_InvC tr : forall s, InvC s -> pre_trace n prim_pre tr s -> InvC (run n tr s).
+Proof. intros s HI Hp. apply (run_good n InvC prim_pre step_preserves_InvC tr s HI Hp). Qed.
+Theorem trace_from_fresh_InvC tr : pre_trace n prim_pre tr (init_state n) -> InvC (run n tr (init_state n)).
+Proof. apply run_preserves_InvC, init_state_InvC. Qed.
 
 End Inv.
